@@ -175,7 +175,8 @@ def run_config(ck, pid, kind, floor_obl, floor_fn, config):
         if ok_all:
             full += 1
     # the reach table says "not analysed", not "anything goes": more undischarged accesses than were recorded for a function means its code changed
-    # in a way the domain cannot bound -- reported like any other undischarged obligation
+    # in a way the domain cannot bound.  That is not a verdict about the new code (a behaviour-preserving rewrite of such a function does it
+    # too: benign patch B13) -- the check answers 'analysis broken': the recorded description of what it cannot analyse no longer fits this tree
     if config == "default":
         for fk, xs in sorted(reach_seen.items()):
             want = reach_counts.get(fk)
@@ -184,11 +185,9 @@ def run_config(ck, pid, kind, floor_obl, floor_fn, config):
             elif len(xs) > want:
                 x = xs[-1]
                 fname = fk.split("|")[0]
-                ck.report("%s:outside-reach-grew:%s:%s" % (pid, api.base_name(fname), "write" if kind == "W" else "read"), "B-%s-in-bounds" % ("write" if kind == "W" else "read"),
-                          "%s:%s" % (res[next(k for k in res if k[1] == fname)]["file"], x["line"]),
-                          "%s: %d accesses of this function cannot be bounded by the analysis where %d were recorded for the pinned tree (functions listed in tables/cap_reach.json): "
-                          "a new or changed %s, e.g. %s through %s at offset %s, size %s against capacity %s" % (api.base_name(fname), len(xs), want, "write" if kind == "W" else "read", x["what"], x["role"], x["off"], x["size"], x["cap"]),
-                          dict(obligations=[dict(what=y["what"], role=y["role"], off=y["off"], size=y["size"], cap=y["cap"], line=y["line"]) for y in xs]))
+                ck.fail_broken("%s (%s:%s): %d accesses of this function cannot be bounded by the analysis where %d were recorded for the pinned tree (functions listed in tables/cap_reach.json): "
+                               "a new or changed %s, e.g. %s through %s at offset %s, size %s against capacity %s -- not decided"
+                               % (api.base_name(fname), res[next(k for k in res if k[1] == fname)]["file"], x["line"], len(xs), want, "write" if kind == "W" else "read", x["what"], x["role"], x["off"], x["size"], x["cap"]))
     st_reach_counts = {fk: len(xs) for fk, xs in reach_seen.items()}
     if tot < floor_obl:
         ck.fail_broken("only %d %s obligations generated (< %d)" % (tot, kind, floor_obl))
